@@ -232,6 +232,12 @@ def run(ctx):
             if why:
                 ctx.problem('oracle', 'property fails on the implementation: ' + why, inputs=js, failing_input_found=True)
                 break
+    from harness.props import lattice
+    why, nsolves = lattice.lattice_c04(ctx)
+    ctx.evaluations += nsolves
+    ctx.suites['option_level_lattice'] = {'solves': nsolves, 'failure': why}
+    if why:
+        ctx.problem('oracle', 'property fails on the implementation: ' + why, inputs={'suite': 'option_level_lattice'}, failing_input_found=True)
     why = oracle_conditional_levels(ctx.rng)
     ctx.evaluations += 4
     ctx.count('oracle', 'conditional_levels')
